@@ -137,7 +137,7 @@ package smtp
 //@   ensures[C03,C04:refused] err != nil ==> quiet(c.Text) && (live(c.Text) ==> c.Text.txn == 2)
 //@ func smtp.dataCloser.Close
 //@   requires[C03,C04:open] d != nil && d.c != nil && d.c.Text != nil && d.c.Text.greeted && (!d.c.Text.ioerr ==> d.c.Text.indata && d.c.Text.pending == 0 && d.c.Text.txn == 3)
-//@   ensures[C03,C04:closed] quiet(d.c.Text) && idle0(d.c.Text) && (!d.c.Text.ioerr ==> (r0 == nil ==> d.c.Text.eodacks == old(d.c.Text.eodacks) + 1) && (r0 != nil ==> d.c.Text.eodacks == old(d.c.Text.eodacks)))
+//@   ensures[C03,C04,C20:closed] quiet(d.c.Text) && idle0(d.c.Text) && (!d.c.Text.ioerr ==> (r0 == nil ==> d.c.Text.eodacks == old(d.c.Text.eodacks) + 1) && (r0 != nil ==> d.c.Text.eodacks == old(d.c.Text.eodacks)))
 //@ at smtp.dataCloser.Close io.Closer.Close#1 after ghost d.c.Text.indata = false
 //@ at smtp.dataCloser.Close io.Closer.Close#1 after ghost d.c.Text.pending = d.c.Text.pending + 1
 //@ at smtp.dataCloser.Close io.Closer.Close#1 after ghost d.c.Text.lastKind = 12
